@@ -364,6 +364,17 @@ func CheckC16(c *Ctx) (*Outcome, error) {
 		return nil, err
 	}
 	found = append(found, fe...)
+	// build tags outside [0-9A-Za-z_]: dots and non-ASCII letters are legal in Go build tags
+	fx, err := c.RunCases(2, func(i int) ([]*History, error) {
+		tag := []string{"gen.goverter", "g\u00e9n\u00e9rer"}[i]
+		hs := CorruptEveryOutputTag(c.Rng("c16-exotic-tag", i), LayoutOpts{UserPkgs: true, Guarded: true}, 1, tag)
+		c.Stats.Add("c16.exotic_tag_histories", int64(len(hs)))
+		return hs, nil
+	}, JudgeC16, note)
+	if err != nil {
+		return nil, err
+	}
+	found = append(found, fx...)
 	// one output file named through two spellings (a directory symbolic link inside the module)
 	// by converters that agree on the package: whatever goverter makes of the two spellings,
 	// the file carries one header and does not block the next run
